@@ -131,9 +131,21 @@ func c01Run(c *mon.Ctx, unit int) {
 		depth := r.Range(1, 5)
 		root := gen.Shape(r, gen.ShapeOpts{MaxDepth: depth, MaxWidth: 4, OddKeys: r.Chance(1, 4)})
 		text := model.Canonical(root)
+		if r.Chance(1, 4) {
+			// the same schema saved with other line ends / indentation (its meaning is the same)
+			text = model.Style{NL: mon.Pick(r, []string{"\r\n", "\r\n", "\r"}), Indent: mon.Pick(r, []string{"", "\t", "-"})}.Render(root)
+			c.Count("schemas written with CRLF / CR line ends", 1)
+		}
 		for _, opt := range []bool{false, true} {
 			s := &model.Schema{Root: root, OptKeys: opt}
 			built := buildSchema(lib.Spec{Text: text, OptKeys: opt})
+			if canon := model.Canonical(root); text != canon && !built.ok && built.check.Panic == "" {
+				// the same schema in the house spelling (LF, two blanks) decides whether it is legal
+				if buildSchema(lib.Spec{Text: canon, OptKeys: opt}).ok {
+					c.Violate("spelling", c01Case{Schema: text, OptKeys: opt}, "accept (as the LF spelling)", built.check.String(), "Check refuses a rule-free schema written with CRLF / CR line ends or other indentation and accepts its LF spelling")
+					continue
+				}
+			}
 			if !built.ok {
 				c.Count("generated schema rejected by Check (skipped)", 1)
 				if built.check.Panic != "" {
@@ -171,6 +183,10 @@ func c01Run(c *mon.Ctx, unit int) {
 				st := model.DocStyle{}
 				if dg.R.Chance(1, 3) {
 					st = model.DocStyle{WS: dg.R, Pretty: dg.R.Bool()}
+				}
+				if dg.R.Chance(1, 4) {
+					// keys and strings spelled with escape sequences (\uXXXX in either case, \/ …)
+					st.Escapes = dg.R
 				}
 				docText := st.Render(v)
 				c01Compare(c, s, text, built, v, docText, class)
@@ -487,6 +503,16 @@ func init() {
 		Run: c01Run,
 		Replay: map[string]func(json.RawMessage) string{
 			"validate": c01ReplayValidate,
+			"spelling": func(raw json.RawMessage) string {
+				var cs c01Case
+				if err := json.Unmarshal(raw, &cs); err != nil {
+					return "bad replay: " + err.Error()
+				}
+				if o := lib.Check(lib.Spec{Text: cs.Schema, OptKeys: cs.OptKeys}); !o.OK {
+					return o.String()
+				}
+				return "accept (as the LF spelling)"
+			},
 			"validate-reused": func(raw json.RawMessage) string {
 				var cs c01Case
 				if err := json.Unmarshal(raw, &cs); err != nil {
